@@ -153,13 +153,19 @@ theorem replaceAt_spec {t : Nat} (k : Nat) (s : Elt) : ∀ (h : Nat) (n : Node),
 
 /-! ## the step before the recursion -/
 
+/-- the `IndexError`: a minimal only child under a root without elements has no sibling to merge with -/
+theorem delPrep_single_minimal {t : Nat} {c : Node} (key : Nat) (hmin : c.elts.length = minKeys t) :
+    delPrep t [] [c] 0 key = none := by
+  have : isMinimal t c = true := by simp [isMinimal, hmin]
+  simp [delPrep, this, balance, tryLeftSteal, tryRightSteal, merge]
+
 theorem delPrep_spec {t h key : Nat} {el er : List Elt} {cl cr : List Node} {c : Node} (ht : 2 ≤ t)
     (hk : Kids t h (el ++ er) (cl ++ c :: cr)) (hcl : cl.length = el.length)
     (hs : Sorted (flat (.node (el ++ er) (cl ++ c :: cr))))
-    (hne : 1 ≤ (el ++ er).length)
+    (hne : c.elts.length = minKeys t → 1 ≤ (el ++ er).length)
     (hwl : ∀ x ∈ el, x.1 < key) (hwr : ∀ x ∈ er, key < x.1) :
     ∃ el1 er1 cl1 c1 cr1,
-      delPrep t (el ++ er) (cl ++ c :: cr) el.length key = (el1 ++ er1, cl1 ++ c1 :: cr1, el1.length) ∧
+      delPrep t (el ++ er) (cl ++ c :: cr) el.length key = some (el1 ++ er1, cl1 ++ c1 :: cr1, el1.length) ∧
       cl1.length = el1.length ∧ Kids t h (el1 ++ er1) (cl1 ++ c1 :: cr1) ∧
       flat (.node (el1 ++ er1) (cl1 ++ c1 :: cr1)) = flat (.node (el ++ er) (cl ++ c :: cr)) ∧
       (∀ x ∈ el1, x.1 < key) ∧ (∀ x ∈ er1, key < x.1) ∧ minKeys t < c1.elts.length ∧
@@ -169,9 +175,9 @@ theorem delPrep_spec {t h key : Nat} {el er : List Elt} {cl cr : List Node} {c :
   by_cases hmin : c.elts.length = minKeys t
   · have : isMinimal t c = true := by simp [isMinimal, hmin]
     simp only [this, if_true]
-    obtain ⟨el1, er1, cl1, c1, cr1, hb, hcl1, hk1, hflat1, hwl1, hwr1, hc1, hlo, hhi⟩ :=
-      balance_spec ht hk hcl hs hmin hne hwl hwr
-    rw [hb]
+    obtain ⟨r, hbal, el1, er1, cl1, c1, cr1, hb, hcl1, hk1, hflat1, hwl1, hwr1, hc1, hlo, hhi⟩ :=
+      balance_spec ht hk hcl hs hmin (hne hmin) hwl hwr
+    rw [hbal, hb]
     simp only []
     have hs1 : Sorted (flat (.node (el1 ++ er1) (cl1 ++ c1 :: cr1))) := by rw [hflat1]; exact hs
     rw [search_unique_lt (sorted_elts hs1) hwl1 hwr1]
